@@ -12,7 +12,7 @@ from vlib.wire import Wire, normalise, same_json
 PROP = 'C14'
 MANIFEST = dict(
     text="Program-quantified symbolic check of JsonSchemaValidator (+ the real, pure-Python jsonschema 3.2.0) through the real dispatchers: signatures of 1..2 (quick) / 1..3 (thorough) parameters with / without defaults, "
-         "per-parameter schema fragments {integer, string, boolean, array, object, enum, integer with minimum/maximum} plus required (also for parameters that have a Python default, i.e. a schema stricter than the signature) / additionalProperties:false, positional / named passing, a context parameter, a parameter removed by the exclusion predicate, the same validated function registered twice (plain and with its first parameter as context, either served first). "
+         "per-parameter schema fragments {integer, string, boolean, array, object, enum, integer with minimum/maximum} plus required (also for parameters that have a Python default, i.e. a schema stricter than the signature) / additionalProperties:false, positional / named passing, a context parameter, a parameter removed by the exclusion predicate (last or in the middle of the signature), positional-only signatures, the same validated function registered twice (plain and with its first parameter as context, either served first), a class-based view with two methods validated against different schemas by one validator and called in sequence. "
          "Argument values are symbolic within bounded domains (ints in {-1,0,1,2,3,10,11}, strings in {'', 'a', 'b'}, both booleans) per concrete JSON kind. Oracle: executed <=> binds and a reference semantics of the schema fragment holds for the bound arguments; "
          "otherwise -32602 whose data survives the server JSON encoder, body not run; accepted arguments reach the method unchanged; the context / excluded parameters cannot be set by the client.",
     ref='5 C14',
@@ -62,6 +62,14 @@ def obligations(tier):
                 obs.append({'h': 'validate', 'disp': disp, 'params': [[frag, True, vk], ['integer', True, vb]], 'passing': passing, 'extra': 'reqall'})
         for frag, vk, passing in it.product(('integer', 'enum'), ('int', 'str'), ('pos', 'named')):
             obs.append({'h': 'twice', 'disp': disp, 'frag': frag, 'vk': vk, 'passing': passing})
+        # a view with two validated methods (different schemas, one validator), called in sequence
+        for (f1, f2), vks, seq, passing, ctx in it.product((('integer', 'string'), ('enum', 'integer')), (('int', 'int'), ('str', 'int'), ('int', 'str'), ('int', 'int', 'str')),
+                                                           (('m1', 'm2'), ('m2', 'm1'), ('m1', 'm2', 'm1')), ('pos', 'named'), (0, 1)):
+            if len(vks) != len(seq):
+                continue
+            if tier == 'quick' and ctx and passing == 'pos':
+                continue
+            obs.append({'h': 'view2', 'disp': disp, 'f1': f1, 'f2': f2, 'vk': list(vks), 'seq': list(seq), 'passing': passing, 'ctx': ctx})
         # positional-only signatures, and an excluded parameter in the middle of the signature (both kinds of parameters)
         for (fa, va), (fb, vb) in it.product((('integer', 'int'), ('integer', 'str'), ('enum', 'int'), ('string', 'str')),
                                              (('integer', 'int'), ('integer', 'absent'), ('enum', 'str'))):
@@ -304,5 +312,53 @@ def h_twice(ob):
         if 'error' not in steal or steal['error'].get('code') != -32602:
             raise Violation('client-set-the-context-parameter', (order, steal))
         return [order[0], conforms]
+
+    return run
+
+
+def h_view2(ob):
+    """A class-based view with TWO methods validated by the same validator instance against different schemas, called one
+    after the other (a fresh view instance and fresh bound methods per request): each call is judged by its own schema."""
+    def run(env):
+        import pjrpc.server
+        from pjrpc.server.validators import jsonschema as jsv_mod
+        is_async = ob['disp'] == 'async'
+        validator = jsv_mod.JsonSchemaValidator()
+        log = []
+        ns = {'log': log, 'validator': validator, 'ViewMixin': pjrpc.server.ViewMixin,
+              'S1': {'type': 'object', 'properties': {'a': _fragment(ob['f1'])}, 'required': ['a']},
+              'S2': {'type': 'object', 'properties': {'a': _fragment(ob['f2'])}, 'required': ['a']}}
+        kw = 'async def' if is_async else 'def'
+        exec(f"class V(ViewMixin):\n    def __init__(self, ctx=None):\n        self.ctx = ctx\n"
+             f"    @validator.validate(schema=S1)\n    {kw} m1(self, a):\n        log.append(['m1', a])\n        return ['m1', a]\n"
+             f"    @validator.validate(schema=S2)\n    {kw} m2(self, a):\n        log.append(['m2', a])\n        return ['m2', a]\n", ns)
+        wire = Wire(env)
+        d = (pjrpc.server.AsyncDispatcher if is_async else pjrpc.server.Dispatcher)(**wire.kwargs())
+        d.registry.view(ns['V'], context='ctx' if ob['ctx'] else None)
+        seq = ob['seq']
+        outs, wants = [], []
+        for i, m in enumerate(seq):
+            v = _value(env, ob['vk'][i], f'v{i}')
+            params = [v] if ob['passing'] == 'pos' else {'a': v}
+            n0 = len(log)
+            try:
+                out = d.dispatch(wire.encode({'jsonrpc': '2.0', 'id': i, 'method': m, 'params': params}), ['ctx', i])
+                if is_async:
+                    out = run_coro(out)
+            except Exception as e:
+                raise Violation('raised:' + type(e).__name__, (seq, i))
+            r = wire.decode(out[0])
+            ok = _conforms(ob['f1'] if m == 'm1' else ob['f2'], ob['vk'][i], v)
+            env.reached()
+            if ok:
+                if 'error' in r or not same_json(r.get('result'), [m, v]) or len(log) != n0 + 1:
+                    raise Violation('conforming-call-refused-or-changed', (seq, i, params, r))
+            else:
+                if 'error' not in r or r['error'].get('code') != -32602:
+                    raise Violation('non-conforming-call-not-32602', (seq, i, params, r))
+                if len(log) != n0:
+                    raise Violation('body-ran-on-non-conforming-call', (seq, i, params))
+            outs.append(ok)
+        return outs
 
     return run
